@@ -188,6 +188,9 @@ def run_family(ck, fam, count, clause, nontrivial, extra_args=(), corpus=True, k
                 cases.append(r)
     gen, crashes = generate(ck, fam, count, extra_args)
     cases += gen
+    for c in cases:
+        if not c.get("script"):
+            c["script"] = {"family": fam, "note": "the case panicked before its script was recorded; re-run with the same seed"}
     if crashes:
         path = ck.write_replay(fam + "-crash", {
             "property": ck.prop, "kind": "the implementation run crashed or panicked",
